@@ -17,6 +17,7 @@ def run(tier, seed):
     rep.analysed['functions'] = len(prog.functions)
     rep.rule('GLOBAL-EFFECT.locked', 'every call that changes process-wide state (GSL error handler, environment, locale, '
              'signal handlers, C random seed) lies in the scope of a lock on one static mutex taken earlier in the same function')
+    statics._PROG[0] = prog
     sites = statics.effect_sites(prog, prog.functions.keys())
     m = 0
     for fn, q, line, kind, c in sites:
@@ -26,7 +27,9 @@ def run(tier, seed):
         ok = statics.lock_dominates(fn, c)
         rep.add('GLOBAL-EFFECT.locked', '%s:%s' % (fn['name'], q), where(fn, line),
                 '%s: `%s(...)` is executed while holding a static mutex' % (fn['name'], q), ok,
-                None if ok else ['no std::lock_guard/unique_lock on a static mutex is alive at this call'])
+                None if ok else ['no std::lock_guard/unique_lock on a static mutex is alive at this call' +
+                                 (' (a member initialiser runs before the members declared after it, whatever the order written in the '
+                                  'initialiser list: the lock member must be declared first)' if fn.get('ctor') else '')])
     rep.rule('GLOBAL-EFFECT.one-mutex', 'all the sites that change one process-wide resource hold one and the same mutex: two '
              'save/disable/restore sections under different mutexes do not exclude each other (one thread restores the default '
              'handler while the other relies on it being off)')
@@ -73,7 +76,7 @@ def run(tier, seed):
             if '*' in f['ty'] or f['ty'].rstrip().endswith('&'):
                 key = (qn, f['name'])
                 ty = f['ty'].strip()
-                if key not in allow and '(*)' in ty:
+                if key not in allow and ('(*)' in ty or ty.replace('const ', '').startswith('gsl_error_handler_t')):      # GSL: a function type
                     rep.add('OWNERSHIP', '%s::%s' % key, where({'file': r['file'], 'l': f['l']}),
                             '%s::%s (%s): pointer to a function (code is immutable)' % (qn, f['name'], f['ty'][:60]), True, nontrivial=False)
                     continue
